@@ -56,6 +56,17 @@ for name, m, r in rows:
                                                cell(r.get('first_violation') or '', 140), hist))
 w('')
 
+w('### G0. Checks as built: sub-checks, oracle / non-triviality rule (from the evidence files)\n')
+for f in sorted(glob.glob(os.path.join(verif, 'evidence', 'C*.json'))):
+    e = json.load(open(f))
+    c = e.get('coverage', {})
+    subs = c.get('per_subcheck', {})
+    w('* **%s** – sub-checks: %s.  ' % (e.get('property_id'), ', '.join('`%s` (%s cases)' % (k, v.get('cases')) for k, v in subs.items())))
+    w('  Rule: %s' % cell(c.get('rule', ''), 1500))
+    if e.get('assumptions'):
+        w('  Assumptions: %s' % cell('; '.join(e['assumptions']) if isinstance(e['assumptions'], list) else e['assumptions'], 600))
+w('')
+
 w('### G5. Measured cost and coverage of the quick tier (evidence files as committed, VERIF_SEED=1, 16 workers)\n')
 w('| property | evaluations | distinct non-trivial | wall s | known findings hit | inconclusive |')
 w('|---|---|---|---|---|---|')
